@@ -354,6 +354,21 @@ MUTANTS = [
     m('C07-input-index-lost', 'C07', ['R8'], E + 'tasks.py',
       "            result.append((i, self._get_action_input(ctx)))",
       "            result.append((0, self._get_action_input(ctx)))"),
+    m('C04-join-unique-key-not-passed', 'C04', ['RA'], E + 'task_handler.py',
+      "            cmd.ctx,\n            unique_key=cmd.unique_key,\n"
+      "            waiting=cmd.is_waiting(),",
+      "            cmd.ctx,\n            waiting=cmd.is_waiting(),"),
+    m('C12-rerun-reset-not-forwarded', 'C12', ['RA'],
+      E + 'workflow_handler.py',
+      "    wf.rerun(task, reset=reset, skip=skip, env=env)",
+      "    wf.rerun(task, skip=skip, env=env)"),
+    m('C05-triggered-by-lost-over-rpc', 'C05', ['RA'], E + 'task_handler.py',
+      "        waiting=waiting == states.WAITING,\n"
+      "        triggered_by=triggered_by,\n",
+      "        waiting=waiting == states.WAITING,\n"),
+    m('C13-legacy-job-key-dropped', 'C13', ['RA'],
+      'mistral/services/legacy_scheduler.py',
+      "            key=job.key,\n", ""),
     # ---------------------------------------------------------------- C08
     m('C08-retry-off-by-one', 'C08', ['R1'], E + 'policies.py',
       "        retries_remain = retry_no < self.count",
